@@ -224,14 +224,21 @@ func c19Run(out *obsWriter, sc svcCase, tmp string) error {
 			for _, fn := range fnames {
 				f := sp.Functions[fn]
 				args, excs := []string{}, []string{}
+				// a go.name annotation renames the parameter / exception for Go, and the request carries Go names
+				declName := func(fs *compile.FieldSpec) string {
+					if n := fs.Annotations["go.name"]; n != "" {
+						return foldName(n)
+					}
+					return foldName(fs.Name)
+				}
 				for _, a := range f.ArgsSpec {
-					args = append(args, foldName(a.Name))
+					args = append(args, declName(a))
 				}
 				hasRet := false
 				if f.ResultSpec != nil {
 					hasRet = f.ResultSpec.ReturnType != nil
 					for _, x := range f.ResultSpec.Exceptions {
-						excs = append(excs, foldName(x.Name))
+						excs = append(excs, declName(x))
 					}
 				}
 				fdet = append(fdet, wj.J{"thriftName": f.Name, "oneway": f.OneWay, "args": args, "excs": excs, "hasRet": hasRet})
